@@ -48,8 +48,9 @@ Proof.
     + intros g Hg. apply mget_mset_other. congruence.
     + intros _. destruct f; reflexivity.
   - rewrite mget_mset_same. split; [reflexivity|]. apply mset_rest.
-  - split; [reflexivity|]. unfold rest_equal. repeat split; try reflexivity. intros g _. destruct g; reflexivity. congruence.
-  - split; [assumption|]. unfold rest_equal. repeat split; try reflexivity. congruence.
+  - split; [reflexivity|]. unfold rest_equal.
+    repeat split; try reflexivity; try (intros g _; destruct g; reflexivity); try congruence.
+  - split; [assumption|]. unfold rest_equal. repeat split; try reflexivity; try congruence.
 Qed.
 
 (* ------------------------------------------------------------------ facts read off the regenerated table *)
@@ -106,9 +107,9 @@ Proof.
   repeat match goal with
   | |- context [String.eqb n ?s] => destruct (String.eqb_spec n s); [subst n|]
   end; try (vm_compute in M; discriminate); try discriminate.
-  - destruct c; try discriminate. intro H. inv H. exists FAsi. split; [reflexivity|assumption].
-  - destruct c; try discriminate. intro H. inv H. exists FNames. split; [reflexivity|assumption].
-  - destruct c; try discriminate. intro H. inv H. exists FGroups. split; [reflexivity|assumption].
+  - simpl. destruct c; try discriminate. intro H. injection H as H. exists FAsi. split; [reflexivity|exact H].
+  - simpl. destruct c; try discriminate. intro H. injection H as H. exists FNames. split; [reflexivity|exact H].
+  - simpl. destruct c; try discriminate. intro H. injection H as H. exists FGroups. split; [reflexivity|exact H].
 Qed.
 
 Lemma set_by_index_eff : forall o n v i e f, mfield_of_name n = Some f -> (i < List.length (mget f o))%nat ->
@@ -123,8 +124,9 @@ Lemma delete_from_idx : forall o n i e, delete_from o n (Some i) None = Ok e ->
   exists f, mfield_of_name n = Some f /\ 0 <= i /\ e = ERemove f (Z.to_nat i) /\ (Z.to_nat i < List.length (mget f o))%nat.
 Proof.
   intros o n i e H. unfold delete_from in H.
-  repeat (bm; try discriminate). inv H. exists m. split; [reflexivity|].
-  apply andb_true_iff in E3. destruct E3 as [A B]. apply Z.leb_le in A. apply Z.ltb_lt in B.
+  repeat (bm; try discriminate). inv H. eexists. split; [reflexivity|].
+  match goal with Hc : (_ && _) = true |- _ => apply andb_true_iff in Hc; destruct Hc as [A B] end.
+  apply Z.leb_le in A. apply Z.ltb_lt in B.
   repeat split; auto. lia.
 Qed.
 
